@@ -713,8 +713,10 @@ def _apply(m, op):
         _, name, deps, targets, coefs = op[:5]
         if name in m.ftasks or name in m.knobs:
             raise ModelReject("task name in use")
-        if not targets or len(set(targets)) != len(targets):
-            raise ModelReject("empty/duplicate")
+        if len(set(targets)) != len(targets):
+            raise ModelReject("duplicate")
+        if not targets and (not deps or (len(op) > 5 and op[5])):
+            raise ModelReject("a task without targets (an observer) needs dependencies and a task id of its own")
         ksrc = {k["source"] for k in m.knobs.values()}
         for t in targets:
             _free_leaf(m, t)
